@@ -91,15 +91,15 @@ end S3db.AList
 
 namespace S3db.Kv
 open S3db S3db.AList S3db.Gen.Crdt
-variable {K V : Type} [DecidableEq K] [DecidableEq V]
+variable {K E : Type} [DecidableEq K] [DecidableEq E]
 
 /-- what the merge does to one key -/
-def mergeOpt (f : Entry V → Entry V → Entry V) : Option (Entry V) → Option (Entry V) → Option (Entry V)
+def mergeOpt (f : E → E → E) : Option E → Option E → Option E
   | none, y => y
   | x, none => x
   | some x, some y => some (if x = y then x else f x y)
 
-theorem lookup_mergeStep (f : Entry V → Entry V → Entry V) (a : Tree K V) (p : K × Entry V) (k : K) :
+theorem lookup_mergeStep (f : E → E → E) (a : AList K E) (p : K × E) (k : K) :
     lookup k (mergeStep f a p) = if p.1 = k then mergeOpt f (lookup k a) (some p.2) else lookup k a := by
   unfold mergeStep
   by_cases h : p.1 = k
@@ -117,7 +117,7 @@ theorem lookup_mergeStep (f : Entry V → Entry V → Entry V) (a : Tree K V) (p
       · simp [hx, h]
       · simp [hx, h, lookup_insert]
 
-theorem nodupKeys_mergeStep (f : Entry V → Entry V → Entry V) {a : Tree K V} (p : K × Entry V)
+theorem nodupKeys_mergeStep (f : E → E → E) {a : AList K E} (p : K × E)
     (h : NodupKeys a) : NodupKeys (mergeStep f a p) := by
   unfold mergeStep
   cases lookup p.1 a with
@@ -127,15 +127,15 @@ theorem nodupKeys_mergeStep (f : Entry V → Entry V → Entry V) {a : Tree K V}
     · simp [hx, h]
     · simp only [hx, if_false]; exact nodupKeys_insert h
 
-theorem nodupKeys_mergeTrees (f : Entry V → Entry V → Entry V) (g : Tree K V) :
-    ∀ {a : Tree K V}, NodupKeys a → NodupKeys (mergeTrees f a g) := by
+theorem nodupKeys_mergeTrees (f : E → E → E) (g : AList K E) :
+    ∀ {a : AList K E}, NodupKeys a → NodupKeys (mergeTrees f a g) := by
   induction g with
   | nil => intro a h; exact h
   | cons p g ih => intro a h; exact ih (nodupKeys_mergeStep f p h)
 
 /-- **the tree merge is pointwise** -/
-theorem lookup_mergeTrees (f : Entry V → Entry V → Entry V) (g : Tree K V) (hg : NodupKeys g) :
-    ∀ (a : Tree K V) (k : K), lookup k (mergeTrees f a g) = mergeOpt f (lookup k a) (lookup k g) := by
+theorem lookup_mergeTrees (f : E → E → E) (g : AList K E) (hg : NodupKeys g) :
+    ∀ (a : AList K E) (k : K), lookup k (mergeTrees f a g) = mergeOpt f (lookup k a) (lookup k g) := by
   induction g with
   | nil => intro a k; cases h : lookup k a <;> simp [mergeTrees, mergeOpt, h]
   | cons p g ih =>
@@ -153,8 +153,8 @@ theorem lookup_mergeTrees (f : Entry V → Entry V → Entry V) (g : Tree K V) (
       cases lookup k0 a <;> simp [mergeOpt]
     · simp [h, lookup]
 
-theorem mergeOpt_eq_selOpt {f : Entry V → Entry V → Entry V} {R} (L : Sel.Laws f R)
-    (x y : Option (Entry V)) : mergeOpt f x y = Sel.selOpt f x y := by
+theorem mergeOpt_eq_selOpt {f : E → E → E} {R} (L : Sel.Laws f R)
+    (x y : Option E) : mergeOpt f x y = Sel.selOpt f x y := by
   cases x <;> cases y <;> simp [mergeOpt, Sel.selOpt]
   rename_i a b
   intro h; subst h; exact (L.idem a).symm
